@@ -149,6 +149,15 @@ func (s *server) meta(ctx context.Context, sc script, stream grpc.ServerStream) 
 		e2 := stream.SetHeader(metadata.MD{"x-ctl": {"a\x01b"}})
 		e3 := stream.SetHeader(metadata.MD{"x-ctl-bin": {"a\x01b"}})
 		s.saw(fmt.Sprintf("setheader: mixed-case=%v control-char=%v control-char-bin=%v", status.Code(e1), status.Code(e2), status.Code(e3)))
+		// one bad pair spoils the whole metadata, whatever else is in it (a binary value is exempt from the value
+		// rule, not a licence for its neighbours) and in whatever order a map hands the pairs out
+		refused := 0
+		for i := 0; i < 8; i++ {
+			if err := stream.SetHeader(metadata.MD{fmt.Sprintf("x-b%d-bin", i): {"\x01"}, fmt.Sprintf("X-Bad%d", i): {"v"}, fmt.Sprintf("x-ok%d", i): {"v"}}); status.Code(err) == codes.Internal {
+				refused++
+			}
+		}
+		s.saw(fmt.Sprintf("setheader: bin+bad+ok refused %d of 8", refused))
 	}
 	if sc.Trailer {
 		if stream != nil {
